@@ -806,3 +806,43 @@ Definition reads_back (k : bytes) (v : value) : bool :=
   | RbBinding k' v' => beqb k k' && value_eqb v v'
   | _ => false
   end.
+
+(* ================================================================ repl.AutoLoad: the state file, one evaluation per line *)
+(* bufio.ScanLines: the text between newlines, a trailing carriage return dropped; a last line without newline counts
+   when it is not empty *)
+Fixpoint split_at_nl (cur : bytes) (l : bytes) : list bytes :=
+  match l with
+  | [] => match cur with [] => [] | _ => [rev cur] end
+  | c :: r => if c =? 10 then rev cur :: split_at_nl [] r else split_at_nl (c :: cur) r
+  end.
+
+Definition strip_cr (l : bytes) : bytes :=
+  match rev l with
+  | c :: r => if c =? 13 then rev r else l
+  | [] => l
+  end.
+
+Definition scan_lines (file : bytes) : list bytes := map strip_cr (split_at_nl [] file).
+
+(* Environment.Set at the root: replace the binding of k, or create it *)
+Fixpoint upsert (k : bytes) (v : value) (st : list (bytes * value)) : list (bytes * value) :=
+  match st with
+  | [] => [(k, v)]
+  | (k', v') :: r => if beqb k' k then (k, v) :: r else (k', v') :: upsert k v r
+  end.
+
+(* one line: eval.EvalString; an error is logged and the line skipped (the loop goes on) *)
+Definition load_line (conv : numconv) (st : list (bytes * value)) (line : bytes) : list (bytes * value) :=
+  match read_back conv line with
+  | Some (k, v) => upsert k v st
+  | None => st
+  end.
+
+(* the data globals bound by auto-loading a state file into a fresh session (data lines only: a line that is not
+   name=<data literal> leaves the data globals as they are) *)
+Definition autoload (conv : numconv) (file : bytes) : list (bytes * value) :=
+  fold_left (load_line conv) (scan_lines file) [].
+
+(* the root environment holding exactly the data globals env *)
+Definition data_store (env : list (bytes * value)) : list (bytes * sval) :=
+  map (fun kv => (fst kv, SData (snd kv))) env.
